@@ -1275,6 +1275,9 @@ pub struct Profile {
     pub validator: ValKind,
     pub coster: CosterKind,
     pub flavor: &'static str,
+    /// concurrent walks: probability that client 1, parked in the middle of a call, is passed over (its calls then span
+    /// many steps of the others: the long pauses between the two halves of remove / insert that random picking rarely gives)
+    pub p_lag: f64,
 }
 
 fn pick_cmd(rng: &mut StdRng, p: &Profile) -> Cmd {
@@ -1400,6 +1403,8 @@ pub fn random_walk(rng: &mut StdRng, p: &Profile, t: Trace) -> (Trace, usize, Ve
             if w.client_idle(a) {
                 let cmd = pick_cmd(rng, p);
                 w.step_client(a, Some(cmd));
+            } else if a == 0 && p.p_lag > 0.0 && matches!(w.client_state(a), St::Parked(_)) && rng.gen_bool(p.p_lag) {
+                continue;
             } else {
                 w.step_client(a, None);
             }
@@ -1471,6 +1476,7 @@ pub fn profile(name: &str, flavor: &'static str) -> Profile {
         validator: ValKind::Always,
         coster: CosterKind::Const2,
         flavor,
+        p_lag: 0.0,
     };
     match name {
         "seq" => base,
@@ -1633,6 +1639,20 @@ pub fn profile(name: &str, flavor: &'static str) -> Profile {
             ttls: vec![500, 1500],
             advances: vec![400, 700, 1100],
             max_cost: (6, 12),
+            ..base
+        },
+        "coll_lag" => Profile {
+            name: "coll_lag",
+            clients: 2,
+            sequential: false,
+            steps: 260,
+            keys: vec![0, 1],
+            w: [40, 0, 4, 42, 8, 0, 0, 0, 0, 5, 0, 1],
+            buf_cap: (2, 4),
+            max_cost: (6, 12),
+            costs: vec![1, 2],
+            p_bump: 0.0,
+            p_lag: 0.85,
             ..base
         },
         "coll_conc" => Profile {
